@@ -48,6 +48,14 @@ HasTid(kind) == kind = "tcp"
 MatchAt(s, i, pat) == i + Len(pat) - 1 <= Len(s) /\ \A k \in 1..Len(pat) : s[i + k - 1] = pat[k]
 UpHex(c) == IF c >= 97 /\ c <= 102 THEN c - 32 ELSE c
 MatchHexAt(s, i, pat) == i + Len(pat) - 1 <= Len(s) /\ \A k \in 1..Len(pat) : UpHex(s[i + k - 1]) = pat[k]
+(* A PDU of a fixed-length data-access function code has exactly that length: an MBAP (or any) frame that hands the decoder  *)
+(* a longer or shorter PDU for one of these codes has a length that is not consistent with the PDU it claims to carry.       *)
+FixedLenOK(dir, pdu) ==
+  IF Len(pdu) = 0 THEN FALSE
+  ELSE LET fc == pdu[1] IN
+       IF dir = "req" THEN (IF fc \in {1,2,3,4,5,6} THEN Len(pdu) = 5 ELSE IF fc = 22 THEN Len(pdu) = 7 ELSE TRUE)
+       ELSE (IF fc \in {5,6,15,16} THEN Len(pdu) = 5 ELSE IF fc = 22 THEN Len(pdu) = 7 ELSE TRUE)
+
 Justified(kind, d, fed) ==
   CASE kind = "tcp" -> LET pat == Build("tcp", d.tid, d.pid, d.uid, d.pdu) IN \E i \in 1..Len(fed) : MatchAt(fed, i, pat)
     [] kind = "rtu" -> LET pat == RtuFrame(d.uid, d.pdu) IN \E i \in 1..Len(fed) : MatchAt(fed, i, pat)
